@@ -459,10 +459,7 @@ def _following(wroot_ast, cur_ast, all_, back):
     if idx is None:
         return 'unknown'
     inside = {id(n) for n in ast.walk(cur_ast)}
-    for n in order[idx + 1:]:
-        if id(n) not in inside:
-            return n
-    return None
+    return [n for n in order[idx + 1:] if id(n) not in inside]     # candidates; the first one still in the tree afterwards
 
 
 def _make_expect(case, root, f, a, did_send, cur_replaced, cur_removed, any_send_true, acts, wroot, follow='unknown'):
@@ -485,6 +482,8 @@ def _make_expect(case, root, f, a, did_send, cur_replaced, cur_removed, any_send
         if (follow == 'unknown' or any_send_true or did_send is not None or not recurse or case.get('scope')
                 or case['on'] == 'leave'):
             return None
+        reach = _reachable(root.a)      # the removal may have taken other subtrees with it (Raise.exc -> cause, ...)
+        follow = next((n for n in follow if id(n) in reach), None)
         return {'kind': 'removed', 'follow': follow, 'f': f}
     na = f.a
     if na is None or _has_fstring(na):
